@@ -324,6 +324,17 @@ class Interp:
         except Exception:
             return
         g = c.ghost.get((when, fp))
+        if g is None:
+            # wildcard hooks: ('before', 'branch.append(*)') attach to every statement of that shape,
+            # whatever its argument - the ghost update must not depend on the code it monitors
+            import fnmatch
+            for hk, gg in c.ghost.items():
+                if not isinstance(hk, tuple):
+                    continue
+                w, pat = hk
+                if w == when and isinstance(pat, str) and '*' in pat and fnmatch.fnmatchcase(fp, pat):
+                    g = gg
+                    break
         if g:
             self.V.ghost_hits.add((c.key, when, fp))
             self.ghost_exec(g, fr)
@@ -908,7 +919,7 @@ class Interp:
     # =====================================================================================
     def assign(self, t, v, fr):
         if isinstance(t, ast.Name):
-            if self.mode != 'spec':
+            if self.mode != 'spec' and not getattr(fr, 'scratch', False):
                 self.touch(('name', t.id))
             c = fr.contract
             if c is not None and t.id in c.locals:
@@ -1201,9 +1212,12 @@ class Interp:
         if self.mode != 'code':
             terms = []
             last = None
+            is_and_ = isinstance(e.op, ast.And)
             for v in e.values:
                 last = self.eval(v, fr)
                 t = self.truth(last)
+                if isinstance(t, bool) and t != is_and_:
+                    return VConst(t)      # decided: the remaining operands are not evaluated
                 terms.append(z3.BoolVal(t) if isinstance(t, bool) else t)
             r = z3.And(*terms) if isinstance(e.op, ast.And) else z3.Or(*terms)
             return KBool.wrap(z3.simplify(r) if len(terms) < 8 else r)
@@ -1529,6 +1543,8 @@ class Interp:
             else:
                 res = VConst(None)
             env['result'] = res
+            for gname, gk in c.ghost_results.items():
+                env[gname] = gk.fresh(self, gname)      # existential witnesses of the callee's ghost outputs
             for lab, ens in c.ensures:
                 self.assume(self.spec_bool(ens, env, old))
             if isinstance(selfv, VObj) and c.maintains_inv:
